@@ -115,3 +115,11 @@ Definition compiler_accepts (num_bits : nat) (cc : string) (n_logic_layers : nat
 (* ---------- Gumbel temperature (gumbel_sigmoid and the layers' Gumbel modes): tau as a rational sign *)
 Definition gumbel_domain (tau : Z) : bool := (0 <? tau)%Z.     (* sign of the temperature: positive only *)
 Definition gumbel_accepts (tau : Z) : bool := negb (tau <=? 0)%Z.
+
+(* ---------- the guard `if not 0 < v < math.inf: raise` (temperatures, the thermometer slope, GroupSum's tau) over the classes of a
+   Python float: Python's chained comparison is `0 < v and v < inf`, and every comparison with NaN is false *)
+Inductive fclass := FNaN | FNegInf | FNegative | FZero (* +0.0 and -0.0 *) | FPositive (* positive and finite *) | FPosInf.
+Definition zero_lt (v : fclass) : bool := match v with FPositive | FPosInf => true | _ => false end.
+Definition lt_inf (v : fclass) : bool := match v with FNaN | FPosInf => false | _ => true end.
+Definition positive_finite_guard_accepts (v : fclass) : bool := negb (negb (zero_lt v && lt_inf v)).   (* if not (...): raise *)
+Definition positive_finite_domain (v : fclass) : bool := match v with FPositive => true | _ => false end.
